@@ -3,6 +3,7 @@ import TantivyModel.Proofs.GrammarCharsPhrase
 import TantivyModel.Proofs.GrammarCharsField
 import TantivyModel.Proofs.GrammarCharsSfx
 import TantivyModel.Proofs.GrammarCharsRange
+import TantivyModel.Proofs.GrammarCharsSet
 namespace TantivyModel.Grammar.Chars
 open TantivyModel.Grammar
 
@@ -114,7 +115,7 @@ theorem goodOpd_not (g : Bool) (k : Nat) (o : Opd) (ho : GoodOpd g o) : GoodOpd 
     simp only [notOpd, List.length_cons, List.length_append]
     omega
 
-/-- the well-formed fragment: plain words, double-quoted phrases without escapes (optionally with a slop `~n` or the prefix star), either of them with a field prefix `name:`, bracketed ranges `[a TO b]`/`{a TO b}` (also mixed, also with a field prefix), `NOT x` of a well-formed operand, and parenthesised lists of well-formed operands with
+/-- the well-formed fragment: plain words, double-quoted phrases without escapes (optionally with a slop `~n` or the prefix star), either of them with a field prefix `name:`, bracketed ranges `[a TO b]`/`{a TO b}` (also mixed, also with a field prefix), sets `IN [a b c]` of plain words (any blanks, also with a field prefix), `NOT x` of a well-formed operand, and parenthesised lists of well-formed operands with
     markers, AND/OR and any layout -/
 inductive WFOpd : Opd → Prop where
   | word (w : Str) (hw : PlainWord w) : WFOpd (wordOpd w)
@@ -127,6 +128,9 @@ inductive WFOpd : Opd → Prop where
   | range (lo hi : Bool) (w1 w2 : Str) (h1 : PlainBound w1) (h2 : PlainBound w2) : WFOpd (rangeOpd lo hi w1 w2)
   | fieldRange (f : Str) (lo hi : Bool) (w1 w2 : Str) (hf : PlainWord f) (h1 : PlainBound w1) (h2 : PlainBound w2) :
       WFOpd (fieldRangeOpd f lo hi w1 w2)
+  | set (k0 k1 : Nat) (w : Str) (more : List (Nat × Str)) (h : PlainElems w more) : WFOpd (setOpd k0 k1 w more)
+  | fieldSet (f : Str) (k0 k1 : Nat) (w : Str) (more : List (Nat × Str)) (hf : PlainWord f) (h : PlainElems w more) :
+      WFOpd (fieldSetOpd f k0 k1 w more)
   | not (k : Nat) (o : Opd) (ho : WFOpd o) : WFOpd (notOpd k o)
   | group (lead : Nat) (occ : Option Occur) (o : Opd) (more : List PItem) (k : Nat)
       (ho : WFOpd o) (hm : ∀ it ∈ more, WFOpd it.opd) : WFOpd (groupOpd lead occ o more k)
@@ -141,6 +145,8 @@ theorem wf_good (g : Bool) (o : Opd) (h : WFOpd o) : GoodOpd g o := by
   | fieldPhraseSfx f body x hf hb hx => exact goodOpd_fieldPhraseSfx g f body x hf hb hx
   | range lo hi w1 w2 h1 h2 => exact goodOpd_range g lo hi w1 w2 h1 h2
   | fieldRange f lo hi w1 w2 hf h1 h2 => exact goodOpd_fieldRange g f lo hi w1 w2 hf h1 h2
+  | set k0 k1 w more h => exact goodOpd_set g k0 k1 w more h
+  | fieldSet f k0 k1 w more hf h => exact goodOpd_fieldSet g f k0 k1 w more hf h
   | not k o _ ih => exact goodOpd_not g k o ih
   | group lead occ o more k _ _ iho ihm => exact goodOpd_group g lead occ o more k iho ihm
 
